@@ -712,7 +712,7 @@ func (p *parser) BasicParser(urlOrRef string, baseUrl *Url, url *Url, stateOverr
 }
 
 func (p *parser) percentEncodeInvalidRune(r rune, tr *PercentEncodeSet) string {
-	if p.opts.percentEncodeSinglePercentSign {
+	if p.opts.percentEncodeSinglePercentSign && tr != nil {
 		return p.percentEncodeRune(r, tr.Set(0x25))
 	}
 	return p.percentEncodeRune(r, tr)
